@@ -413,7 +413,7 @@ func flagType(tname string) string {
 func jsonExample(v any) string {
 	// In JSON, keys must be a string. But goa allows map keys to be anything.
 	r := reflect.ValueOf(v)
-	if r.Kind() == reflect.Map {
+	if r.Kind() == reflect.Map && r.Len() > 0 {
 		keys := r.MapKeys()
 		if keys[0].Kind() != reflect.String {
 			a := make(map[string]any, len(keys))
